@@ -721,3 +721,7 @@ fn report_exit(exit_reason: eyre::Result<&str>, message: &str) -> eyre::Result<(
         }
     }
 }
+
+#[cfg(all(test, feature = "verif-blobs"))]
+#[path = "/verif/harness/conductor/blobs.rs"]
+mod verif;
